@@ -470,10 +470,25 @@ func replayLogVec(r *Run, v logVec, evals *atomic.Int64) {
 			}
 			handlerSeq = int(seq.Add(1))
 		}
+		// the peer: IPv4, IPv6, link-local IPv6 with a zone; and, every other case, a middleware in front of the Logger
+		// that hands a CloneWith copy of the context down the chain (the Logger then works on the copy)
+		variant := int(evals.Load())
+		remote := [][2]string{{"192.0.2.1:1234", "192.0.2.1"}, {"[2001:db8::7]:443", "2001:db8::7"}, {"[fe80::1%eth0]:8080", "fe80::1%eth0"}}[variant%3]
+		viaCopy := variant%2 == 1
+		copyMw := func(next fox.HandlerFunc) fox.HandlerFunc {
+			return func(c fox.Context) {
+				cp := c.CloneWith(c.Writer(), c.Request())
+				defer cp.Close()
+				next(cp)
+			}
+		}
 		build := func(withLogger bool) *fox.Router {
 			opts := []fox.GlobalOption{fox.WithNoRouteHandler(did), fox.WithNoMethodHandler(did), fox.WithOptionsHandler(did)}
 			if withLogger {
 				opts = append([]fox.GlobalOption{fox.WithMiddleware(fox.LoggerWithHandler(capH))}, opts...)
+			}
+			if viaCopy { // registered first: it runs in front of the Logger
+				opts = append([]fox.GlobalOption{fox.WithMiddleware(copyMw)}, opts...)
 			}
 			if res := resolverOpt(cs.Router); res != nil {
 				opts = append(opts, fox.WithClientIPResolver(res))
@@ -502,6 +517,7 @@ func replayLogVec(r *Run, v logVec, evals *atomic.Int64) {
 				rt.ServeHTTP(newPlainWriter(), wreq)
 			}
 			req, _ := newRequest(q[0], "log.example", q[1], "")
+			req.RemoteAddr = remote[0]
 			if esc := (&url.URL{Path: q[1]}).EscapedPath(); esc != q[1] {
 				req.URL.RawPath = esc
 			}
@@ -528,7 +544,7 @@ func replayLogVec(r *Run, v logVec, evals *atomic.Int64) {
 			problem = append(problem, fmt.Sprintf("%d records emitted", len(recs)))
 		} else {
 			rec := recs[0]
-			wantMsg := map[string]string{"remote": "192.0.2.1", "resolved": "10.0.0.7", "unknown": "unknown"}[cs.Rec.Msg]
+			wantMsg := map[string]string{"remote": remote[1], "resolved": "10.0.0.7", "unknown": "unknown"}[cs.Rec.Msg]
 			if rec.Level != cs.Rec.Level {
 				problem = append(problem, "level "+rec.Level)
 			}
@@ -550,7 +566,7 @@ func replayLogVec(r *Run, v logVec, evals *atomic.Int64) {
 			problem = append(problem, fmt.Sprintf("response altered: %d %q %v vs %d %q %v", wWith.status, wWith.body, wWith.h, wWithout.status, wWithout.body, wWithout.h))
 		}
 		if len(problem) > 0 {
-			r.violation(fmt.Sprintf("logger kind=%s did=%v location=%v router_resolver=%s route_resolver=%s", v.Kind, cs.Did, cs.Loc, cs.Router, cs.Route),
+			r.violation(fmt.Sprintf("logger kind=%s did=%v location=%v router_resolver=%s route_resolver=%s peer=%s via_copy=%v", v.Kind, cs.Did, cs.Loc, cs.Router, cs.Route, remote[0], viaCopy),
 				map[string]any{"kind": "vector", "handler_kind": v.Kind, "handler_did": cs.Did, "sets_location": cs.Loc, "router_resolver": cs.Router, "route_resolver": cs.Route,
 					"prescribed": cs.Rec, "obtained": problem, "records": recs})
 		}
@@ -676,7 +692,7 @@ func (w flushErrWriter) FlushError() error {
 }
 
 func replayRecVec(r *Run, v recVec, evals *atomic.Int64) {
-	sites := []string{"route", "route-tsr", "route-host", "inner-middleware", "noroute", "nomethod", "options"}
+	sites := []string{"route", "route-tsr", "route-host", "route-updates", "inner-middleware", "noroute", "nomethod", "options"}
 	for _, cs := range v.Cases {
 		for _, site := range sites {
 			under := []string{"plain"}
@@ -740,8 +756,21 @@ func replayRecCase(r *Run, v recVec, progress string, repanic bool, response str
 			rt.MustHandle("GET", "/boom/{id}", pick("route"))
 			rt.MustHandle("GET", "/boomi/{id}/", pick("route-tsr"), fox.WithIgnoreTrailingSlash(true))
 			rt.MustHandle("GET", "rec.example/boomh/{id}", pick("route-host"))
+			// the handler panics inside a managed transaction that has already truncated the method it is served from
+			updBoom := quiet
+			if site == "route-updates" {
+				updBoom = func(c fox.Context) {
+					_ = c.Fox().Updates(func(txn *fox.Txn) error {
+						_ = txn.Truncate("GET")
+						boom(c)
+						return nil
+					})
+				}
+			}
+			rt.MustHandle("GET", "/boomu/{id}", updBoom)
+			rt.MustHandle("GET", "/warm/{w}/{v}", quiet)
 			rt.MustHandle("GET", "/other", quiet)
-			q := map[string][2]string{"route": {"GET", "/boom/42"}, "route-tsr": {"GET", "/boomi/42"}, "route-host": {"GET", "/boomh/42"}, "inner-middleware": {"GET", "/boom/42"},
+			q := map[string][2]string{"route": {"GET", "/boom/42"}, "route-tsr": {"GET", "/boomi/42"}, "route-host": {"GET", "/boomh/42"}, "route-updates": {"GET", "/boomu/42"}, "inner-middleware": {"GET", "/boom/42"},
 				"noroute": {"GET", "/nope"}, "nomethod": {"POST", "/other"}, "options": {"OPTIONS", "/other"}}[site]
 			req, _ := newRequest(q[0], "rec.example", q[1], "")
 			secrets := map[string]string{}
@@ -750,6 +779,16 @@ func replayRecCase(r *Run, v recVec, progress string, repanic bool, response str
 				req.Header[h.Name] = []string{tok} // set directly: the name keeps its capitalisation
 				secrets[h.Name] = tok
 			}
+			// earlier requests served by a route with parameters, one of them through an ignored trailing slash: the
+			// recycled context must not lend its route or parameters to the record of the panic
+			for _, wp := range []string{"/warm/7/8", "/boomi/9"} {
+				if site == "route-tsr" && wp == "/boomi/9" {
+					continue
+				}
+				wreq, _ := newRequest("GET", "rec.example", wp, "")
+				rt.ServeHTTP(newPlainWriter(), wreq)
+			}
+			capH.take()
 			w := newPlainWriter()
 			var hw http.ResponseWriter = w
 			switch underlying {
@@ -805,12 +844,17 @@ func replayRecCase(r *Run, v recVec, progress string, repanic bool, response str
 					problem = append(problem, fmt.Sprintf("%d diagnostic records", len(recs)))
 				} else {
 					rc := recs[0]
-					wantRoute := map[string]string{"route": "/boom/{id}", "route-tsr": "/boomi/{id}/", "route-host": "rec.example/boomh/{id}", "inner-middleware": "/boom/{id}", "noroute": "NoRouteHandler", "nomethod": "NoMethodHandler", "options": "OptionsHandler"}[site]
+					wantRoute := map[string]string{"route": "/boom/{id}", "route-tsr": "/boomi/{id}/", "route-host": "rec.example/boomh/{id}", "route-updates": "/boomu/{id}", "inner-middleware": "/boom/{id}", "noroute": "NoRouteHandler", "nomethod": "NoMethodHandler", "options": "OptionsHandler"}[site]
 					if rc.Attrs["route"] != wantRoute {
 						problem = append(problem, "route attribute "+rc.Attrs["route"])
 					}
 					if (strings.HasPrefix(site, "route") || site == "inner-middleware") && rc.Attrs["params.id"] != "42" {
 						problem = append(problem, fmt.Sprintf("params attribute %v", rc.Attrs))
+					}
+					for k := range rc.Attrs {
+						if strings.HasPrefix(k, "params.") && k != "params.id" || (k == "params.id" && !strings.HasPrefix(site, "route") && site != "inner-middleware") {
+							problem = append(problem, fmt.Sprintf("parameter of another request in the record: %s=%s", k, rc.Attrs[k]))
+						}
 					}
 					if !strings.Contains(rc.Msg, q[0]+" "+q[1]+" HTTP/1.1") {
 						problem = append(problem, "request line missing from the record")
@@ -830,7 +874,7 @@ func replayRecCase(r *Run, v recVec, progress string, repanic bool, response str
 				problem = append(problem, fmt.Sprintf("%d diagnostic records for a re-raised panic", len(recs)))
 			}
 			// the router stays usable
-			if rt.Len() != 4 || !rt.Has("GET", "/boom/{id}") {
+			if rt.Len() != 6 || !rt.Has("GET", "/boom/{id}") || !rt.Has("GET", "/other") {
 				problem = append(problem, "routes changed")
 			}
 			req2, _ := newRequest("GET", "", "/other", "")
